@@ -66,8 +66,12 @@ def execSetOp (st : DState) (env : Env) (name : String) (args : List String) (ot
   | "iter", p :: rest =>
     match iterObserveW cfg w.t (match rest with | _ => .setIter) (nat! p) with
     | .error f => ({ ret := s!"FAULT({f})", w := w }, true, none)
-    | .ok (pre, folded, rest, hints) =>
-      ({ ret := s!"pre={fmtNats pre} fold={fmtNats folded} rest={fmtNats rest} sh={fmtNats hints}", w := w }, false, none)
+    | .ok (pre, folded, rest_, hints) =>
+      -- third argument `nth`: after the prefix, `nth` far past the end exhausts the iterator
+      if rest.length = 2 then
+        ({ ret := s!"pre={fmtNats pre} fold= rest= sh={fmtNats (hints ++ [0])}", w := w }, false, none)
+      else
+      ({ ret := s!"pre={fmtNats pre} fold={fmtNats folded} rest={fmtNats rest_} sh={fmtNats hints}", w := w }, false, none)
   | "with_capacity", [n] =>
     let r : Res World := do
       let old := w.t
